@@ -1,4 +1,8 @@
-import G3D.Proofs.KernelsTie
+import G3D.Proofs.KTieKforms
+import G3D.Proofs.KTieKformsCtor
+import G3D.Proofs.KTieKformsLine
+import G3D.Proofs.SolverTie
+import G3D.Proofs.SolverTieGauss
 import G3D.Props.C17
 #print axioms G3D.Props.C17.general_form_contains_iff
 #print axioms G3D.Props.C17.general_form_roundtrip
@@ -8,8 +12,11 @@ import G3D.Props.C17
 #print axioms G3D.Props.C17.point_normal_roundtrip
 #print axioms G3D.Props.C17.line_forms
 #print axioms G3D.Props.C17.line_parametric_roundtrip
-#print axioms G3D.KernelsTie.generalForm_tie
-#print axioms G3D.KernelsTie.pointNormal_tie
-#print axioms G3D.KernelsTie.lineParametric_tie
-#print axioms G3D.KernelsTie.linePP_tie
-#print axioms G3D.KernelsTie.lineCtorReject_iff
+#print axioms G3D.KTie.Kforms.generalForm_tie
+#print axioms G3D.KTie.Kforms.pointNormal_tie
+#print axioms G3D.KTie.Kforms.lineParametric_tie
+#print axioms G3D.KTie.Kforms.linePP_tie
+#print axioms G3D.KTie.Kforms.lineCtorReject_iff
+#print axioms G3D.SolverTie.gaussian_elimination_tie
+#print axioms G3D.SolverTie.solve_call_tie
+#print axioms G3D.SolverTie.solve_bool_tie
